@@ -1,0 +1,13 @@
+//go:build verif
+
+package actionlint
+
+// VerifTrace, when set, receives the schedule points of the external-process protocol
+// (process.go, linter.go). key identifies the invocation (nil for the linter-level points).
+var VerifTrace func(point string, key interface{})
+
+func verifPoint(point string, key interface{}) {
+	if f := VerifTrace; f != nil {
+		f(point, key)
+	}
+}
